@@ -436,7 +436,7 @@ impl Sim {
         let check_c10 = self.c10() && fam == Family::Insert;
 
         let mut stmt = self.arena.borrow_mut().remove(h).expect("HARNESS: target missing");
-        let before = if check_c10 && is_row_op {
+        let before = if is_row_op {
             Some(stmt.clone())
         } else {
             None
@@ -547,8 +547,14 @@ impl Sim {
                 if let Some(acc) = accepted {
                     let mut keep = true;
                     if !matches!(expect, Expect::Ok) {
-                        let without = self.expected(h)?;
-                        if *without == self.live_canon(h) {
+                        let unchanged = {
+                            let a = self.arena.borrow();
+                            match &before {
+                                Some(b) => a.get(h).unwrap().eq_value(b) == Some(true),
+                                None => false,
+                            }
+                        };
+                        if unchanged {
                             keep = false;
                             self.stats.probe("failed_batch_rejected_as_a_whole");
                         } else {
